@@ -145,7 +145,7 @@ class PROP(PropCheck):
         for n in (1, 2) if tier == "quick" else (1, 2, 3):
             for h in itertools.product(alphabet, repeat=n):
                 out.append(Case(program(list(h) + [("size", "m1")]), meta={"ops": list(h) + [("size", "m1")]}))
-        for _ in range((500 if tier == "quick" else 30000) * scale):
+        for _ in range((500 if tier == "quick" else 12000) * scale):
             ops = [self.gen_op(rng) for _ in range(rng.randint(2, 12 if tier == "quick" else 40))]
             out.append(Case(program(ops), meta={"ops": ops}))
         for _ in range(20 * scale):
